@@ -345,6 +345,41 @@ func Everything(st reflect.Type, gob bool) ap.Item {
 	return p.Interface().(ap.Item)
 }
 
+// EverythingN is Everything with the n-th admissible shape of each field (n = 0 is Everything itself); the shapes that say nothing
+// (the empty list, the language lists without text) are never picked.
+func EverythingN(st reflect.Type, gob bool, n int) ap.Item {
+	if n == 0 {
+		return Everything(st, gob)
+	}
+	c := &Counter{}
+	p := reflect.New(st)
+	p.Elem().FieldByName("ID").SetString(string(c.ID("top")))
+	p.Elem().FieldByName("Type").SetString(string(DefaultType[st.Name()]))
+	for _, f := range Fields(st) {
+		if f.Kind == KID || f.Kind == KType {
+			continue
+		}
+		shapes := ShapesFor(f, c, gob)
+		if f.Kind == KItems && len(shapes) > 1 {
+			shapes = shapes[1:]
+		}
+		if f.Kind == KNLV && len(shapes) > 2 {
+			shapes = shapes[2:]
+		}
+		var keep []Shaped
+		for _, sh := range shapes {
+			if sh.Name != "empty-list" && sh.Name != "endpoints-empty" {
+				keep = append(keep, sh)
+			}
+		}
+		if len(keep) == 0 {
+			continue
+		}
+		p.Elem().Field(f.Index).Set(keep[(n*7+f.Index)%len(keep)].V)
+	}
+	return p.Interface().(ap.Item)
+}
+
 // AnonymousCells enumerates, for every field of Object x its first shapes, an embedded object that has neither id nor type
 // and only that one property (the statement: "embedded objects may lack type and id"), placed in an item property and in a
 // list property of a Note.  What such an object says must not be judged "nothing".
